@@ -84,10 +84,10 @@ type Engine interface {
 }
 
 type EngineMeta struct {
-	Rule        string            // how cases are generated and what makes one distinct / non-trivial
-	Real        []string          // components running real code
-	Stub        []string          // components that are models / stubs
-	FaultKinds  []string          // fault kinds that must fire at least once per tier (coverage failure otherwise)
+	Rule        string   // how cases are generated and what makes one distinct / non-trivial
+	Real        []string // components running real code
+	Stub        []string // components that are models / stubs
+	FaultKinds  []string // fault kinds that must fire at least once per tier (coverage failure otherwise)
 	Assumptions []string
 	Levels      map[string]string // property -> level
 }
